@@ -216,3 +216,53 @@ func c20Replay(i int, raw json.RawMessage) Result {
 	}
 	return Result{OK: true, NT: nt}
 }
+
+// c20seq: the one thing the shifted-caveat realisation cannot show - ONE token string presented twice, before and
+// after its expiry, in real time (Tokens.tla: Issue, Validate, TickTo(past expiry), Validate).  The first
+// validation must succeed and the second must fail; a first validation that already fails because the machine was
+// too slow to reach it within the lifetime is inconclusive and skipped, never reported.
+type c20SeqRec struct {
+	Secret string `json:"secret"`
+	User   string `json:"user"`
+	Dur    int    `json:"dur"`
+}
+
+func init() {
+	register("c20seq", "one token validated before and after its expiry in real time", func(a *args) error {
+		return replayAll(a, func(i int, raw json.RawMessage) Result {
+			var r c20SeqRec
+			if err := json.Unmarshal(raw, &r); err != nil {
+				panic(err)
+			}
+			opts := tokens.TokenOptions{ServerPrivateKey: []byte(r.Secret), ServerName: "example.org", UserID: r.User, Duration: r.Dur}
+			issued := time.Now()
+			tok, err := tokens.GenerateLoginToken(opts)
+			if err != nil {
+				return Result{OK: false, Key: "C20/issue/error", What: "GenerateLoginToken failed: " + err.Error()}
+			}
+			nt := fmt.Sprintf("seq|dur=%d", r.Dur)
+			vopts := tokens.TokenOptions{ServerPrivateKey: []byte(r.Secret), ServerName: "example.org", UserID: r.User}
+			first := tokens.ValidateToken(vopts, tok)
+			// the expiry is (second of issue) + duration, compared in whole seconds: the first validation is only
+			// conclusive if it was over before the earliest second the token can expire in
+			if time.Now().Unix() >= issued.Unix()+int64(r.Dur) {
+				return Result{OK: true, NT: nt + "|inconclusive", What: "too slow to validate within the lifetime"}
+			}
+			if first != nil {
+				return Result{OK: false, NT: nt, Key: "C20/sequence/first-validation-refused", What: "a token validated within its lifetime was refused: " + first.Error()}
+			}
+			time.Sleep(time.Until(issued.Truncate(time.Second).Add(time.Duration(r.Dur+2)*time.Second + 500*time.Millisecond)))
+			// the same string again, and a copy of it
+			for n, t := range []string{tok, string(append([]byte(nil), tok...))} {
+				if err := tokens.ValidateToken(vopts, t); err == nil {
+					return Result{OK: false, NT: nt, Key: "C20/sequence/validates-after-expiry-once-it-validated-before",
+						What: fmt.Sprintf("a token issued for %d s validated, and still validates %.1f s after issue (presentation %d of the same string)", r.Dur, time.Since(issued).Seconds(), n+1)}
+				}
+			}
+			if u, err := tokens.GetUserFromToken(tok); err != nil || u != r.User {
+				return Result{OK: false, NT: nt, Key: "C20/sequence/getuser", What: fmt.Sprintf("GetUserFromToken = %q, %v", u, err)}
+			}
+			return Result{OK: true, NT: nt}
+		})
+	})
+}
